@@ -492,11 +492,12 @@ example : (match cloneRuntime 1 hSmall 7 8 rSmall with
 
 /-- fields holding a mutable reference that the clone path deliberately does not set from a cloner
     call: `object.value` (decided per payload type, see `payload_cases_fresh`), `runtime.scope` and
-    `runtime.labels` (nil/empty in a runtime at rest – the copy starts at rest), `runtime.otto` (set by
+    `runtime.labels` (nil/empty in a runtime at rest – the copy starts at rest), `runtime.haltValue` (what an
+    interrupt function panicked with while that panic is on its way out of Run: nil in a copy, fixes fd4edef/a1dbda4), `runtime.otto` (set by
     `Otto.Copy`, otto.go:640), `Otto.Interrupt` (left nil: a copy has no interrupt channel until the embedder
     gives it one – sharing the template's would break isolation) -/
 def notCloned : List (String × String) :=
-  [("object", "value"), ("runtime", "scope"), ("runtime", "labels"), ("runtime", "otto"), ("Otto", "Interrupt")]
+  [("object", "value"), ("runtime", "scope"), ("runtime", "labels"), ("runtime", "haltValue"), ("runtime", "otto"), ("Otto", "Interrupt")]
 
 /-- payload types holding a reference that objectClone copies by value: primitive wrappers (`Value`
     holding a primitive), `dateObject` (its `value` is a number), `ottoError` (its `trace` slice is
@@ -514,21 +515,22 @@ theorem clone_fields_fresh :
 
 /-- the structs and fields are the ones the model transcribes (a new field shows up here);
     `runtime.halting` (fix fd4edef: an interrupt function panicked and the panic is on its way out of Run) is a
-    bool the clone leaves at false: a copy is at rest -/
+    bool the clone leaves at false: a copy is at rest; `objectStash.provideThis` (fix 20f1524: the environment of a
+    with statement provides a this value, the global one does not) is a bool copied as it is -/
 theorem clone_fields_expected : Gen.cloneFields.map (fun f => (f.2.1, f.2.2.1)) =
     [("object", "value"), ("object", "runtime"), ("object", "objectClass"), ("object", "prototype"), ("object", "property"),
      ("object", "class"), ("object", "propertyOrder"), ("object", "extensible"),
      ("bindFunctionObject", "target"), ("bindFunctionObject", "this"), ("bindFunctionObject", "argumentList"),
      ("nodeFunctionObject", "node"), ("nodeFunctionObject", "stash"),
      ("argumentsObject", "stash"), ("argumentsObject", "indexOfParameterName"),
-     ("objectStash", "rt"), ("objectStash", "outr"), ("objectStash", "object"),
+     ("objectStash", "rt"), ("objectStash", "outr"), ("objectStash", "object"), ("objectStash", "provideThis"),
      ("dclStash", "rt"), ("dclStash", "outr"), ("dclStash", "property"),
      ("fnStash", "dclStash"), ("fnStash", "arguments"), ("fnStash", "indexOfArgumentName"),
      ("property", "value"), ("property", "mode"),
      ("dclProperty", "value"), ("dclProperty", "mutable"), ("dclProperty", "deletable"), ("dclProperty", "readable"),
      ("Value", "value"), ("Value", "kind"),
      ("runtime", "global"), ("runtime", "globalObject"), ("runtime", "globalStash"), ("runtime", "scope"), ("runtime", "otto"),
-     ("runtime", "eval"), ("runtime", "debugger"), ("runtime", "random"), ("runtime", "labels"), ("runtime", "halting"), ("runtime", "stackLimit"),
+     ("runtime", "eval"), ("runtime", "debugger"), ("runtime", "random"), ("runtime", "labels"), ("runtime", "halting"), ("runtime", "haltValue"), ("runtime", "stackLimit"),
      ("runtime", "traceLimit"), ("runtime", "lck"), ("Otto", "Interrupt"), ("Otto", "runtime")] := by decide
 
 /-- **C17.payload_cases_fresh** — every payload type objectClone's switch handles either holds no
